@@ -121,6 +121,7 @@ fn run_history_s<S: HB>(cfg: &HistCfg, mut src: Source, out: &mut RunOut, opts: 
     let mut explicit_buckets = pre_all[0].buckets;
     let mut step = 0usize;
     let n_events = match &src { Source::Generated(_) => cfg.events, Source::Fixed(ops) => ops.len(), Source::Dynamic(_) => usize::MAX };
+    let mut pending_leak: Option<String> = None; // C06: an unowned live object seen mid-history (reported if it survives to the end)
     let mut leaky = false; // an iterator was forgotten: leaks are permitted from here on (C17)
     let mut broken = false;
     while step < n_events && !caches.is_empty() {
@@ -186,8 +187,15 @@ fn run_history_s<S: HB>(cfg: &HistCfg, mut src: Source, out: &mut RunOut, opts: 
                     for k in &held.keys { known.insert(k.uid); } for v in &held.vals { known.insert(v.uid); }
                     let stray: Vec<u64> = ledger_live_uids(100000).into_iter().filter(|u| !known.contains(u)).take(6).collect();
                     let dead: Vec<u64> = known.iter().filter(|u| !ledger_is_live(**u)).cloned().take(6).collect();
-                    viols.push(Viol { prop: "C06", sig: if !stray.is_empty() { "leak".into() } else { "dropped-but-held".into() }, msg: format!("after {}: {} objects alive, {} in the caches + {} handed back; alive but owned by nobody: {:?}; owned but already dropped: {:?}", op.to_text(), live, in_caches, heldn, stray, dead) });
+                    if !dead.is_empty() {
+                        viols.push(Viol { prop: "C06", sig: "dropped-but-held".into(), msg: format!("after {}: {} objects alive, {} in the caches + {} handed back; owned but already dropped: {:?}", op.to_text(), live, in_caches, heldn, dead) });
+                    } else if pending_leak.is_none() {
+                        // An object that nobody owns any more but that has not been dropped yet. C06 speaks about the moment "the cache and
+                        // everything obtained from it are gone", so this becomes a verdict only if it is still alive at the end of the history.
+                        pending_leak = Some(format!("first seen after event #{} `{}`: alive but owned by nobody: {:?}", step, op.to_text(), stray));
+                    }
                 } else {
+                    pending_leak = None;
                     for p in &post_all { for e in &p.ents { if !ledger_is_live(e.kuid) || !ledger_is_live(e.vuid) { viols.push(Viol { prop: "C06", sig: "dropped-but-held".into(), msg: format!("after {}: entry {} holds an object that was already dropped", op.to_text(), e.id) }); } } }
                 }
             }
@@ -286,7 +294,7 @@ fn run_history_s<S: HB>(cfg: &HistCfg, mut src: Source, out: &mut RunOut, opts: 
         }
         for e in ledger_take_errors() { viols.push(Viol { prop: "C06", sig: "double-drop".into(), msg: format!("at the end of the history: {}", e) }); }
         let in_caches: usize = pre_all.iter().map(|p| p.ents.len() * 2).sum();
-        if ledger_live() as usize != in_caches { viols.push(Viol { prop: "C06", sig: "leak".into(), msg: format!("after disposing of a cache: {} objects alive, {} in the remaining caches; e.g. {:?}", ledger_live(), in_caches, ledger_live_uids(100000).into_iter().take(6).collect::<Vec<_>>()) }); break; }
+        if ledger_live() as usize != in_caches && (pre_all.is_empty() || pending_leak.is_none()) { viols.push(Viol { prop: "C06", sig: "leak".into(), msg: format!("after disposing of a cache: {} objects alive, {} in the remaining caches; e.g. {:?}{}", ledger_live(), in_caches, ledger_live_uids(100000).into_iter().take(6).collect::<Vec<_>>(), pending_leak.as_ref().map(|p| format!(" ({})", p)).unwrap_or_default()) }); break; }
     }
     if !viols.is_empty() { out.record(&viols, cfg, &oplog, oplog.len().saturating_sub(1)); for c in caches.drain(..) { std::mem::forget(c); } }
     ledger_reset();
